@@ -541,6 +541,10 @@ class SmtLibParser(object):
         if what == "const":
             assert ty.is_array_type(), "(as const x) is supported only for array constants"
             def res(expr):
+                if self.env.stc.get_type(expr) != cast(_ArrayType, ty).elem_type:
+                    raise PysmtTypeError("The value of a constant array of sort %s "
+                                         "is of sort %s" %
+                                         (ty, self.env.stc.get_type(expr)))
                 return self.env.formula_manager.Array(cast(_ArrayType, ty).index_type, expr)
             def handler():
                 return res
